@@ -13,73 +13,60 @@ theorem steps_idle (b : Bool) (n : Nat) (σ : St) (h : σ.pc = .idle) : steps b 
     show steps b k (step b σ) = σ
     rw [this]; exact ih
 
-theorem setTimerH_dirty (σ : St) (t : Time) :
-    (setTimerH σ t).dirty = σ.dirty ∧ (setTimerH σ t).badArg = σ.badArg := by
+theorem setTimerH_dirty (σ : St) (t : Time) : (setTimerH σ t).dirty = σ.dirty := by
   unfold setTimerH; split
-  · exact ⟨rfl, rfl⟩
-  · split <;> exact ⟨rfl, rfl⟩
+  · rfl
+  · split <;> rfl
 
-theorem handler_dirty (b : Bool) (σ : St) :
-    (handler b σ).dirty = σ.dirty ∧ (handler b σ).badArg = σ.badArg := by
+theorem handler_dirty (b : Bool) (σ : St) : (handler b σ).dirty = σ.dirty := by
   unfold handler
   split
   · exact setTimerH_dirty _ _
   · simp only
     split
-    · exact ⟨rfl, rfl⟩
+    · rfl
     · split
-      · exact ⟨rfl, rfl⟩
+      · rfl
       · exact setTimerH_dirty _ _
 
 theorem tick_flags (b : Bool) (σ : St) (d : Int) :
-    (σ.dirty = true → (tick b σ d).dirty = true) ∧ (tick b σ d).badArg = σ.badArg ∧
+    (σ.dirty = true → (tick b σ d).dirty = true) ∧
     (σ.inCrit = true → 0 < d → (tick b σ d).dirty = true) := by
   unfold tick
   split
-  · rename_i hd; exact ⟨fun h => h, rfl, fun _ h => absurd h (by omega)⟩
+  · rename_i hd; exact ⟨fun h => h, fun _ h => absurd h (by omega)⟩
   · split
-    · exact ⟨fun h => by simp [h], rfl, fun h _ => by simp [h]⟩
+    · exact ⟨fun h => by simp [h], fun h _ => by simp [h]⟩
     · split
-      · exact ⟨fun h => by simp [h], rfl, fun h _ => by simp [h]⟩
-      · refine ⟨fun h => ?_, ?_, fun h _ => ?_⟩
-        · rw [(handler_dirty b _).1]; simp [h]
-        · rw [(handler_dirty b _).2]
-        · rw [(handler_dirty b _).1]; simp [h]
+      · exact ⟨fun h => by simp [h], fun h _ => by simp [h]⟩
+      · refine ⟨fun h => ?_, fun h _ => ?_⟩
+        · rw [handler_dirty b _]; simp [h]
+        · rw [handler_dirty b _]; simp [h]
 
-theorem step_flags (b : Bool) (σ : St) :
-    (step b σ).dirty = σ.dirty ∧ (step b σ).badArg = σ.badArg := by
+theorem step_flags (b : Bool) (σ : St) : (step b σ).dirty = σ.dirty := by
   unfold step
   split <;> (repeat' split) <;>
-    (first | exact ⟨rfl, rfl⟩ | (simp only [apply_ite St.dirty, apply_ite St.badArg, ite_self, and_self]) | simp [throwCtor])
+    (first | rfl | (simp only [apply_ite St.dirty, ite_self]) | simp [throwCtor])
 
-theorem create_flags (σ : St) (id : Nat) (cs : Int) :
-    (create σ id cs).dirty = σ.dirty ∧ (σ.badArg = true → (create σ id cs).badArg = true) := by
+theorem create_flags (σ : St) (id : Nat) (cs : Int) : (create σ id cs).dirty = σ.dirty := by
   unfold create
   split
-  · exact ⟨rfl, fun h => h⟩
-  · split
-    · exact ⟨rfl, fun h => h⟩
-    · exact ⟨rfl, fun h => by simp [h]⟩
+  · rfl
+  · split <;> rfl
 
-theorem destroy_flags (σ : St) (id : Nat) :
-    (destroy σ id).dirty = σ.dirty ∧ (destroy σ id).badArg = σ.badArg := by
+theorem destroy_flags (σ : St) (id : Nat) : (destroy σ id).dirty = σ.dirty := by
   unfold destroy
   split
-  · exact ⟨rfl, rfl⟩
-  · split <;> exact ⟨rfl, rfl⟩
+  · rfl
+  · split <;> rfl
 
-theorem exec_flags (b : Bool) (σ : St) (s : Step) :
-    (σ.dirty = true → (exec b σ s).dirty = true) ∧ (σ.badArg = true → (exec b σ s).badArg = true) := by
+theorem exec_flags (b : Bool) (σ : St) (s : Step) : σ.dirty = true → (exec b σ s).dirty = true := by
+  intro h
   cases s with
-  | create id cs =>
-    exact ⟨fun h => by show (create σ id cs).dirty = true; rw [(create_flags σ id cs).1]; exact h,
-           (create_flags σ id cs).2⟩
-  | destroy id =>
-    exact ⟨fun h => by show (destroy σ id).dirty = true; rw [(destroy_flags σ id).1]; exact h,
-           fun h => by show (destroy σ id).badArg = true; rw [(destroy_flags σ id).2]; exact h⟩
-  | step => exact ⟨fun h => by show (step b σ).dirty = true; rw [(step_flags b σ).1]; exact h,
-                   fun h => by show (step b σ).badArg = true; rw [(step_flags b σ).2]; exact h⟩
-  | tick d => exact ⟨(tick_flags b σ d).1, fun h => by show (tick b σ d).badArg = true; rw [(tick_flags b σ d).2.1]; exact h⟩
+  | create id cs => show (create σ id cs).dirty = true; rw [create_flags σ id cs]; exact h
+  | destroy id => show (destroy σ id).dirty = true; rw [destroy_flags σ id]; exact h
+  | step => show (step b σ).dirty = true; rw [step_flags b σ]; exact h
+  | tick d => exact (tick_flags b σ d).1 h
 
 /-- a statement group that leaves the critical section ends the operation -/
 theorem step_leaves_crit (b : Bool) (σ : St) (h : σ.inCrit = true) (h' : (step b σ).inCrit = false) :
@@ -89,7 +76,7 @@ theorem step_leaves_crit (b : Bool) (σ : St) (h : σ.inCrit = true) (h' : (step
   split <;> (try simp only [throwCtor]) <;> (repeat' split) <;> simp [h]
 
 def Inv (σ : St) : Prop :=
-  σ.dirty = true ∨ σ.badArg = true ∨ Clock σ ∨ (σ.inCrit = true ∧ ∃ n, Clock (steps false n σ))
+  σ.dirty = true ∨ Clock σ ∨ (σ.inCrit = true ∧ ∃ n, Clock (steps false n σ))
 
 theorem Clock.logDestroyed {σ σ' : St} (h : Clock σ) (id : Nat)
     (hpc : σ'.pc = σ.pc) (hcrit : σ'.inCrit = σ.inCrit) (herr : σ'.err = σ.err) (htsf : σ'.tsf = σ.tsf)
@@ -118,34 +105,31 @@ theorem Clock.logDestroyed {σ σ' : St} (h : Clock σ) (id : Nat)
 theorem inv_create {σ : St} (h : Clock σ) (id : Nat) (cs : Int) : Inv (create σ id cs) := by
   by_cases hg : σ.pc ≠ .idle ∨ id ∈ σ.used
   · have : create σ id cs = σ := by unfold create; simp [hg]
-    rw [this]; exact Or.inr (Or.inr (Or.inl h))
+    rw [this]; exact Or.inr (Or.inl h)
   · have hpc : σ.pc = .idle := by
       by_cases hh : σ.pc = .idle
       · exact hh
       · exact absurd (Or.inl hh) hg
     have hf : id ∉ σ.used := fun hh => hg (Or.inr hh)
-    by_cases h0 : cs = 0
-    · right; right; left
+    by_cases h0 : cs ≤ 0
+    · right; left
       have : create σ id cs = { σ with used := id :: σ.used, log := .rejected id cs :: σ.log } := by
         unfold create; simp [hg, h0]
       rw [this]
       exact h.frame (Or.inl hpc) h.notCrit h.noErr rfl rfl rfl rfl rfl rfl rfl
         ⟨[Event.rejected id cs], rfl, by intro e he; simp at he; subst he; exact neutral_simple.2.2.2.2.2.2.2.2 _ _⟩
-    · by_cases hneg : cs < 0
-      · right; left
-        unfold create; simp [hg, h0, hneg]
-      · have hcs : 0 < cs := by omega
-        have hcrit : (create σ id cs).inCrit = true := by unfold create; simp [hg, h0]
-        right; right; right
-        refine ⟨hcrit, ?_⟩
-        cases hr : σ.running
-        · exact ⟨3, clock_create_A h id cs hcs hpc hf hr⟩
-        · cases hlt : (Time.ofCs cs).lt (getTimer σ)
-          · exact ⟨3, clock_create_B2 h id cs hcs hpc hf hr hlt⟩
-          · exact ⟨4, clock_create_B1 h id cs hcs hpc hf hr hlt⟩
+    · have hcs : 0 < cs := by omega
+      have hcrit : (create σ id cs).inCrit = true := by unfold create; simp [hg, h0]
+      right; right
+      refine ⟨hcrit, ?_⟩
+      cases hr : σ.running
+      · exact ⟨3, clock_create_A h id cs hcs hpc hf hr⟩
+      · cases hlt : (Time.ofCs cs).lt (getTimer σ)
+        · exact ⟨3, clock_create_B2 h id cs hcs hpc hf hr hlt⟩
+        · exact ⟨4, clock_create_B1 h id cs hcs hpc hf hr hlt⟩
 
 theorem inv_destroy {σ : St} (h : Clock σ) (id : Nat) : Inv (destroy σ id) := by
-  right; right; left
+  right; left
   unfold destroy
   split
   · exact h
@@ -159,7 +143,7 @@ theorem inv_destroy {σ : St} (h : Clock σ) (id : Nat) : Inv (destroy σ id) :=
     · exact h.frame (Or.inr ⟨id, rfl⟩) h.notCrit h.noErr rfl rfl rfl rfl rfl rfl rfl ⟨[], rfl, by simp⟩
 
 theorem inv_step_d1 {σ : St} (h : Clock σ) (id : Nat) (hpc : σ.pc = .d1 id) : Inv (step false σ) := by
-  right; right; right
+  right; right
   have hcrit : (step false σ).inCrit = true := by
     unfold step; simp only [hpc]
     split
@@ -183,9 +167,8 @@ theorem inv_step_d1 {σ : St} (h : Clock σ) (id : Nat) (hpc : σ.pc = .d1 id) :
     · exact ⟨1, clock_destroy_other h id hpc e rest hp he⟩
 
 theorem inv_exec {σ : St} (h : Inv σ) (s : Step) : Inv (exec false σ s) := by
-  rcases h with hd | hb | hc | ⟨hcrit, n, hn⟩
-  · exact Or.inl ((exec_flags false σ s).1 hd)
-  · exact Or.inr (Or.inl ((exec_flags false σ s).2 hb))
+  rcases h with hd | hc | ⟨hcrit, n, hn⟩
+  · exact Or.inl (exec_flags false σ s hd)
   · cases s with
     | create id cs => exact inv_create hc id cs
     | destroy id => exact inv_destroy hc id
@@ -193,9 +176,9 @@ theorem inv_exec {σ : St} (h : Inv σ) (s : Step) : Inv (exec false σ s) := by
       rcases hc.pcOut with hpc | ⟨id, hpc⟩
       · have : step false σ = σ := by unfold step; simp [hpc]
         show Inv (step false σ)
-        rw [this]; exact Or.inr (Or.inr (Or.inl hc))
+        rw [this]; exact Or.inr (Or.inl hc)
       · exact inv_step_d1 hc id hpc
-    | tick d => exact Or.inr (Or.inr (Or.inl (clock_tick hc d)))
+    | tick d => exact Or.inr (Or.inl (clock_tick hc d))
   · cases n with
     | zero =>
       have := hn.notCrit
@@ -210,25 +193,25 @@ theorem inv_exec {σ : St} (h : Inv σ) (s : Step) : Inv (exec false σ s) := by
       | create id cs =>
         have : create σ id cs = σ := by unfold create; simp [hnotidle]
         show Inv (create σ id cs)
-        rw [this]; exact Or.inr (Or.inr (Or.inr ⟨hcrit, k+1, hn⟩))
+        rw [this]; exact Or.inr (Or.inr ⟨hcrit, k+1, hn⟩)
       | destroy id =>
         have : destroy σ id = σ := by unfold destroy; simp [hnotidle]
         show Inv (destroy σ id)
-        rw [this]; exact Or.inr (Or.inr (Or.inr ⟨hcrit, k+1, hn⟩))
+        rw [this]; exact Or.inr (Or.inr ⟨hcrit, k+1, hn⟩)
       | step =>
         have hn' : Clock (steps false k (step false σ)) := hn
         show Inv (step false σ)
         cases hc' : (step false σ).inCrit
         · have hidle := step_leaves_crit false σ hcrit hc'
           rw [steps_idle false k _ hidle] at hn'
-          exact Or.inr (Or.inr (Or.inl hn'))
-        · exact Or.inr (Or.inr (Or.inr ⟨hc', k, hn'⟩))
+          exact Or.inr (Or.inl hn')
+        · exact Or.inr (Or.inr ⟨hc', k, hn'⟩)
       | tick d =>
         show Inv (tick false σ d)
         by_cases hd : 0 < d
-        · exact Or.inl ((tick_flags false σ d).2.2 hcrit hd)
+        · exact Or.inl ((tick_flags false σ d).2 hcrit hd)
         · have : tick false σ d = σ := by unfold tick; simp [show d ≤ 0 by omega]
-          rw [this]; exact Or.inr (Or.inr (Or.inr ⟨hcrit, k+1, hn⟩))
+          rw [this]; exact Or.inr (Or.inr ⟨hcrit, k+1, hn⟩)
 
 theorem inv_runFrom (sched : List Step) : ∀ σ, Inv σ → Inv (runFrom false σ sched) := by
   induction sched with
@@ -236,6 +219,6 @@ theorem inv_runFrom (sched : List Step) : ∀ σ, Inv σ → Inv (runFrom false 
   | cons s l ih => intro σ h; exact ih _ (inv_exec h s)
 
 theorem inv_run (sched : List Step) : Inv (run false sched) :=
-  inv_runFrom sched {} (Or.inr (Or.inr (Or.inl clock_init)))
+  inv_runFrom sched {} (Or.inr (Or.inl clock_init))
 
 end PPLV.Watchdog
